@@ -407,7 +407,7 @@ func fsmStats(c *vCtx, v *fsmView, r *fsmRun) {
 		}
 	}
 	fl := r.mp.frameLoop
-	c.Seen("ring_states", fmt.Sprintf("N%d/i%d,f%v,o%d,rec%v", fl.size, fl.currentIndex, fl.bufferFull, fl.oldest, r.mp.isRecording))
+	c.Seen("ring_states", fmt.Sprintf("%s,rec%v", implState(fl), r.mp.isRecording))
 }
 
 func runFsmCase(c *vCtx, idx int64, prop string, oracle fsmOracle, cfg fsmConfig, evs []fsmEvent, class string) {
